@@ -151,6 +151,11 @@ def detect(name, tier="quick", extra_props=()):
 
 
 def table():
+    notes = {}
+    try:
+        notes = json.load(open(os.path.join(SEEDED, "first_try_notes.json")))
+    except Exception:
+        pass
     rows = []
     for name in sorted(os.listdir(SEEDED)):
         d = os.path.join(SEEDED, name)
@@ -163,11 +168,12 @@ def table():
         q = det.get("quick", {})
         caught = [p for p, r in q.items() if r.get("exit") == 1]
         own = q.get(meta["property"], {})
-        rows.append((name, meta["property"], "yes" if own.get("exit") == 1 else ("NO" if own else "not run"), ",".join(caught), (meta.get("summary") or "")[:110].replace("\n", " ")))
-    print("| seeded change | property | caught by its quick check | all quick checks that fire | what it changes |")
-    print("|---|---|---|---|---|")
+        sigs = "; ".join(s.split("|", 1)[1] for s in own.get("signatures", [])[:2])
+        rows.append((name, meta["property"], "yes" if own.get("exit") == 1 else ("NO" if own else "not run"), notes.get(name, "yes"), ",".join(c for c in caught if c != meta["property"]) or "-", sigs.replace("|", "/"), (meta.get("summary") or "")[:150].replace("\n", " ").replace("|", "/")))
+    print("| seeded change | property | caught by its quick check now | at first try | other checks run on it that fire | signatures (first two) | what it changes |")
+    print("|---|---|---|---|---|---|---|")
     for r in rows:
-        print("| %s | %s | %s | %s | %s |" % r)
+        print("| %s | %s | %s | %s | %s | %s | %s |" % r)
 
 
 def main():
